@@ -16,7 +16,8 @@ use warp_core::{
     WorldlineId, WorldlineTick, WriterHead, WriterHeadKey,
 };
 
-/// The program alphabet: programs writing different slots (and two writing the same slot).
+/// The program alphabet: programs writing different slots (P0/P4 write the same slot), every one
+/// of them visible in the canonical state root (they touch the part of the graph reachable from n0).
 pub fn programs() -> Vec<Program> {
     vec![
         // P0: attachment on n1
@@ -31,13 +32,21 @@ pub fn programs() -> Vec<Program> {
                 ty: 0,
             },
         ]),
-        // P2: delete edge e0 (n0 -> n1): n1 becomes unreachable
-        Program::new(vec![Step::DeleteEdge { e: 0, from: 0 }]),
-        // P3: copy n1's attachment to n2 (reads state written by P0/P4)
-        Program::new(vec![Step::CopyNodeAtt { from: 1, to: 2 }]),
+        // P2: delete edge e0 (n0 -> n1) and re-link n1 through a different edge id e2
+        Program::new(vec![
+            Step::DeleteEdge { e: 0, from: 0 },
+            Step::UpsertEdge {
+                e: 2,
+                from: 0,
+                to: 1,
+                ty: 1,
+            },
+        ]),
+        // P3: copy n1's attachment onto the root (reads what P0/P4 wrote: order-sensitive)
+        Program::new(vec![Step::CopyNodeAtt { from: 1, to: 0 }]),
         // P4: same slot as P0, different value
         Program::new(vec![Step::SetNodeAtt { n: 1, v: 2 }]),
-        // P5: attachment on the root
+        // P5: attachment on the root (reserved for diverging commits on fork children)
         Program::new(vec![Step::SetNodeAtt { n: 0, v: 5 }]),
     ]
 }
